@@ -15,6 +15,11 @@ extern URI_CHAR *g_wc_retp;
 #define I(k, j) (g_wc_i[k][j])
 #define ONE_CALL(id) (g_wc_n == 1 && g_wc_id[0] == (id))
 #define NO_CALL() (g_wc_n == 0)
+/* "strlen(text), then the callee": one or more strlen calls on the text (how often the length is taken is not the
+ * wrapper's contract), followed by exactly one call of the callee, which is entry L of the log */
+#define L (g_wc_n - 1)
+#define STRLEN_THEN(id, txt) (g_wc_n >= 2 && g_wc_n <= WC_MAX && g_wc_id[L] == (id) \
+	&& g_wc_id[0] == WC_STRLEN && P(0,0) == (txt) && (L <= 1 || (g_wc_id[1] == WC_STRLEN && P(1,0) == (txt))) && (L <= 2 || (g_wc_id[2] == WC_STRLEN && P(2,0) == (txt))))
 
 void harness(void) {
 	ND(unsigned char, which);
@@ -68,22 +73,22 @@ void harness(void) {
 		VPOST("C12,C13", ONE_CALL(WC_MAKEOWNER) && P(0,0) == pa && P(0,1) == NULL && r == ret, "uriMakeOwner == uriMakeOwnerMm(uri, default manager)"); break;
 	case 7: r = URI_FUNC(ParseUri)(pst, ptext);
 		if (pst == NULL || ptext == NULL) VPOST("C01", NO_CALL() && r == URI_ERROR_NULL, "uriParseUri: NULL argument => URI_ERROR_NULL, nothing called");
-		else VPOST("C01,C13", g_wc_n == 2 && g_wc_id[0] == WC_STRLEN && P(0,0) == ptext && g_wc_id[1] == WC_PARSE && P(1,0) == pst && P(1,1) == ptext
-			&& P(1,2) == ptext + len && P(1,3) == NULL && r == ret, "uriParseUri == uriParseUriExMm(state, text, text + strlen(text), default manager)");
+		else VPOST("C01,C13", STRLEN_THEN(WC_PARSE, ptext) && P(L,0) == pst && P(L,1) == ptext
+			&& P(L,2) == ptext + len && P(L,3) == NULL && r == ret, "uriParseUri == uriParseUriExMm(state, text, text + strlen(text), default manager)");
 		break;
 	case 8: r = URI_FUNC(ParseUriEx)(pst, ptext, pafter);
 		VPOST("C01,C13", ONE_CALL(WC_PARSE) && P(0,0) == pst && P(0,1) == ptext && P(0,2) == pafter && P(0,3) == NULL && r == ret,
 			"uriParseUriEx == uriParseUriExMm(state, first, afterLast, default manager)"); break;
 	case 9: r = URI_FUNC(ParseSingleUriEx)(pa, ptext, pafter, pep);
-		if (pafter == NULL && ptext != NULL) VPOST("C01,C13", g_wc_n == 2 && g_wc_id[0] == WC_STRLEN && P(0,0) == ptext && g_wc_id[1] == WC_PARSESINGLE && P(1,0) == pa
-			&& P(1,1) == ptext && P(1,2) == ptext + len && P(1,3) == pep && P(1,4) == NULL && r == ret,
+		if (pafter == NULL && ptext != NULL) VPOST("C01,C13", STRLEN_THEN(WC_PARSESINGLE, ptext) && P(L,0) == pa
+			&& P(L,1) == ptext && P(L,2) == ptext + len && P(L,3) == pep && P(L,4) == NULL && r == ret,
 			"uriParseSingleUriEx with afterLast == NULL == uriParseSingleUriExMm(uri, first, first + strlen(first), errorPos, default manager)");
 		else VPOST("C01,C13", ONE_CALL(WC_PARSESINGLE) && P(0,0) == pa && P(0,1) == ptext && P(0,2) == pafter && P(0,3) == pep && P(0,4) == NULL && r == ret,
 			"uriParseSingleUriEx == uriParseSingleUriExMm(uri, first, afterLast, errorPos, default manager)");
 		break;
 	case 10: r = URI_FUNC(ParseSingleUri)(pa, ptext, pep);
-		if (ptext != NULL) VPOST("C01,C13", g_wc_n == 2 && g_wc_id[0] == WC_STRLEN && P(0,0) == ptext && g_wc_id[1] == WC_PARSESINGLE && P(1,0) == pa
-			&& P(1,1) == ptext && P(1,2) == ptext + len && P(1,3) == pep && P(1,4) == NULL && r == ret,
+		if (ptext != NULL) VPOST("C01,C13", STRLEN_THEN(WC_PARSESINGLE, ptext) && P(L,0) == pa
+			&& P(L,1) == ptext && P(L,2) == ptext + len && P(L,3) == pep && P(L,4) == NULL && r == ret,
 			"uriParseSingleUri == uriParseSingleUriExMm(uri, text, text + strlen(text), errorPos, default manager)");
 		else VPOST("C01", ONE_CALL(WC_PARSESINGLE) && P(0,0) == pa && P(0,1) == NULL && P(0,2) == NULL && P(0,3) == pep && r == ret,
 			"uriParseSingleUri with NULL text hands NULL on (rejected by uriParseSingleUriExMm)");
